@@ -454,28 +454,32 @@ def ctor_runs(h, res=None, memo="empty", flag=False):
             yield Rec(family="S", lcls=kcls, ends=("a", "b"), op="create-typeerror", arg=bad_at, out=out, mr=None, p=p, pre=p.pre, post=post, links=links,
                       model=p.model, qual=QUAL["create"], icls=f"non-vertex-at-v{bad_at + 1}", replay="")
     # Link(vertices=[...]) on a plain Link subclass: every listed vertex is associated once
-    for pattern in (("a", "b"), ("a", "b", "a"), ("a", None)):
+    from sa.ae import IterV
+    for pattern, form in [(pt, "list") for pt in (("a", "b"), ("a", "b", "a"), ("a", None))] + [(("a", "b"), "tuple"), (("a", "b"), "iterator"), (("a", "b", "a"), "iterator")]:
         p = Pre(h, "DirectedEdge", ("a", "b"), memo, flag)
+        items = [p.arg(x) for x in pattern]
         try:
-            out = h.call(h.cls("SymLink"), vertices=Seq([p.arg(x) for x in pattern], "list"))
+            out = h.call(h.cls("SymLink"), vertices=IterV(items) if form == "iterator" else Seq(items, form))
         except Unknown as u:
             if res is not None:
                 res.ob(False)
-                res.undecide(f"SymLink(vertices={pattern}): {u}")
+                res.undecide(f"SymLink(vertices={pattern} as {form}): {u}")
             continue
         e = p.model.new_link("SymLink")
         for x in pattern:
             m_add_vertex(p.model, e, x)
         post, links = p.post()
         yield Rec(family="S", lcls="SymLink", ends=("a", "b"), op="create", arg=pattern, out=out, mr=e, p=p, pre=p.pre, post=post, links=links, model=p.model,
-                  qual="edgegraph.structure.link.Link.__init__", icls=f"vertices-listed={len(pattern)},repeats={len(pattern) - len(set(pattern))}", replay="")
+                  qual="edgegraph.structure.link.Link.__init__", icls=f"vertices-listed={len(pattern)},repeats={len(pattern) - len(set(pattern))}" + ("" if form == "list" else f",given-as={form}"),
+                  replay=("from edgegraph.structure import *\nclass SymLink(Link): pass\na, b = Vertex(), Vertex()\n"
+                          f"src = [{', '.join(str(x) for x in pattern)}]\nL = SymLink(vertices={'iter(src)' if form == 'iterator' else ('tuple(src)' if form == 'tuple' else 'src')})\nprint(L.vertices, a.links, b.links)"))
     # Vertex(links=[L]) / Vertex(links=[L, L])
     for lcls in ("DirectedEdge", "SymLink"):
         for reps in (1, 2):
             p = Pre(h, lcls, ("a", "b"), memo, flag)
             L = p.links["L"]
             try:
-                out = h.call(h.cls("Vertex"), links=Seq([L] * reps, "list"))
+                out = h.call(h.cls("Vertex"), links=Seq([L] * reps, "list") if (reps, lcls) != (2, "SymLink") else IterV([L] * reps))     # the last case as a one-shot iterator
             except Unknown as u:
                 if res is not None:
                     res.ob(False)
